@@ -233,6 +233,34 @@ pub struct Sub<C> {
     pub domain: Option<fn(&mut C) -> bool>,
 }
 
+/// Strategy over cases decoded from generated byte strings with the libFuzzer codec (fuzzde) and
+/// the sub-check's domain function: a second, differently distributed generator for the same
+/// interpreter (all operation kinds equally likely, histories up to the thorough-tier length).
+pub fn decoded_strategy<C>(domain: fn(&mut C) -> bool) -> BoxedStrategy<C>
+where
+    C: Debug + Clone + DeserializeOwned + 'static,
+{
+    use proptest::prelude::*;
+    (proptest::collection::vec(any::<u8>(), 0..700), 0u8..3)
+        .prop_filter_map("decodes to a case of the domain", move |(mut bytes, mode)| {
+            if mode == 0 {
+                // small values: short sequences, low selectors
+                for (i, b) in bytes.iter_mut().enumerate() {
+                    if i % 4 != 3 {
+                        *b %= 24;
+                    }
+                }
+            }
+            let mut c: C = crate::fuzzde::decode(&bytes).ok()?;
+            if domain(&mut c) {
+                Some(c)
+            } else {
+                None
+            }
+        })
+        .boxed()
+}
+
 /// like `sub`, with a domain function for the libFuzzer entry point (see `Sub::domain`)
 pub fn sub_fuzz<C>(
     name: &'static str,
